@@ -36,7 +36,9 @@ class Rng:
     M = (1 << 64) - 1
 
     def __init__(self, seed):
-        self.s = (seed * 0x9E3779B97F4A7C15 + 0x1234567) & self.M
+        # hash the seed: consecutive seeds must give unrelated streams (seed*GAMMA would make seed k+1
+        # the stream of seed k shifted by one draw)
+        self.s = int(hashlib.sha256(b'nv-seed-%d' % seed).hexdigest()[:16], 16)
 
     def next(self):
         self.s = (self.s + 0x9E3779B97F4A7C15) & self.M
